@@ -1115,12 +1115,198 @@ def meta_contracts():
 
 
 def contracts():
-    return meta_contracts() + pointwise_contracts()
+    return meta_contracts() + pointwise_contracts() + arguments_contracts()
 
 
 TRUSTED = []
 ASSUMPTIONS = []
 NOT_COVERED = []
+
+
+# ---------------------------------------------------------------------------------------------------------------------
+# Part 3: `arguments` / `isconstant` bookkeeping on abstract dependency lists (sets of objects by identity: pyvc/symset.py)
+
+from pyvc.symset import SymSet, frozenset_builtin  # noqa: E402
+
+
+class Elem(SObj):
+    """an evaluable with an identity term `sid` and an abstract argument set"""
+
+    def __init__(self, cx, name, cls='Array', arguments=True, **attrs):
+        super().__init__(cls, attrs=attrs, classes=(cls, 'Array', 'Evaluable'))
+        self.sid = cx.int(name + '.id')
+        self.name = name
+        if arguments:
+            self.attrs['arguments'] = SymSet.fresh(cx, name + '.arguments')
+
+    def sym_set_of(self, ctx, items):
+        return SymSet.of(ctx, items)
+
+
+LOOPINDEX_ID = z3.Function('LoopIndex.id', z3.IntSort(), z3.IntSort(), z3.IntSort())
+
+
+class ArgsBase(InProc, Contract):
+    prop = PROP
+    ndeps = 0
+    split_conjunctions = False
+
+    def __init__(self, ndeps=None):
+        if ndeps is not None:
+            self.ndeps = ndeps
+            self.label = 'deps=%d' % ndeps
+            self.bounded = 'number of dependencies fixed (%d); the argument sets are arbitrary' % ndeps
+
+    def gl(self, cx):
+        def loopindex(ctx, loop_id, length):
+            # DataClass equality is structural: _LoopIndex(loop_id, length) IS the index the loop body refers to
+            o = Elem(ctx, 'index', cls='_LoopIndex', arguments=False)
+            o.sid = LOOPINDEX_ID(loop_id.sid, length.sid)
+            return o
+        return {'frozenset': frozenset_builtin, '_LoopIndex': ClassRef('_LoopIndex', construct=loopindex)}
+
+    def raises(self, cx, S, e):
+        return False
+
+
+class EvaluableArguments(ArgsBase):
+    """Evaluable.arguments == union of the dependencies' arguments"""
+    fn = 'evaluable:Evaluable.arguments'
+
+    def setup(self, cx):
+        deps = tuple(Elem(cx, 'dep%d' % i) for i in range(self.ndeps))
+        return State(args=(SObj('Evaluable', attrs=dict(dependencies=deps)),), deps=deps, globals=self.gl(cx))
+
+    def ensures(self, cx, S, result):
+        if not isinstance(result, SymSet):
+            raise Unsupported('arguments returned %r' % (result,))
+        e = cx.int('e')
+        want = z3.Or([d.attrs['arguments'].mem(e) for d in S.deps]) if S.deps else z3.BoolVal(False)
+        return [('every-argument-of-a-dependency-is-announced', z3.Implies(want, result.mem(e))),
+                ('only-arguments-of-dependencies-are-announced', z3.Implies(result.mem(e), want))]
+
+    def replay(self, ob):
+        return _replay_args('evaluable', ob)
+
+
+class EvaluableIsConstant(ArgsBase):
+    """isconstant <=> no arguments"""
+    fn = 'evaluable:Evaluable.isconstant'
+
+    def setup(self, cx):
+        A = SymSet.fresh(cx, 'arguments')
+        return State(args=(SObj('Evaluable', attrs=dict(arguments=A)),), A=A, globals=self.gl(cx))
+
+    def ensures(self, cx, S, result):
+        from pyvc.values import zbool
+        r = zbool(result) if not isinstance(result, bool) else z3.BoolVal(result)
+        e = cx.int('e')
+        w = getattr(S.A, 'witness', None)
+        out = [('constant-means-no-argument', z3.Implies(r, z3.Not(S.A.mem(e))))]
+        if w is not None:
+            out.append(('nonconstant-means-some-argument', z3.Implies(z3.Not(r), S.A.mem(w))))
+        return out
+
+    def replay(self, ob):
+        return _replay_args('isconstant', ob)
+
+
+class LoopArguments(ArgsBase):
+    """Loop.arguments == (arguments of length, init_args, body_args) minus exactly the loop index"""
+    fn = 'evaluable:Loop.arguments'
+
+    def setup(self, cx):
+        deps = tuple(Elem(cx, 'dep%d' % i) for i in range(self.ndeps))
+        loop_id, length = Elem(cx, 'loop_id', cls='_LoopId', arguments=False), Elem(cx, 'length')
+        alldeps = (length,) + deps
+        node = Node('Loop', None, loop_id=loop_id, length=length, dependencies=alldeps)
+        S = State(deps=alldeps, loop_id=loop_id, length=length, node=node, globals=self.gl(cx))
+        return S
+
+    def body(self, cx, S, call):
+        env = Env(S, cx)
+        env.call = call
+        S.node.env = env
+        # `super().arguments` inside Loop.arguments is the REAL Evaluable.arguments
+        S.node.attrs['super().arguments'] = call('evaluable:Evaluable.arguments', S.node)
+        return call('evaluable:Loop.arguments', S.node)
+
+    def ensures(self, cx, S, result):
+        if not isinstance(result, SymSet):
+            raise Unsupported('arguments returned %r' % (result,))
+        e = cx.int('e')
+        idx = LOOPINDEX_ID(S.loop_id.sid, S.length.sid)
+        inner = z3.Or([d.attrs['arguments'].mem(e) for d in S.deps])
+        return [('the-loop-index-is-not-announced', z3.Not(result.mem(idx))),
+                ('every-other-argument-of-a-dependency-is-announced', z3.Implies(z3.And(inner, e != idx), result.mem(e))),
+                ('only-arguments-of-dependencies-are-announced', z3.Implies(result.mem(e), inner))]
+
+    def replay(self, ob):
+        return _replay_args('loop', ob)
+
+
+class SelfArguments(ArgsBase):
+    """Argument.arguments / _LoopIndex.arguments == {self}"""
+
+    def __init__(self, cls):
+        self.cls = cls
+        self.fn = 'evaluable:%s.arguments' % cls
+
+    def setup(self, cx):
+        me = Elem(cx, 'self', cls=self.cls, arguments=False)
+        return State(args=(me,), me=me, globals=self.gl(cx))
+
+    def ensures(self, cx, S, result):
+        if not isinstance(result, SymSet):
+            raise Unsupported('arguments returned %r' % (result,))
+        e = cx.int('e')
+        return [('announces-itself', result.mem(S.me.sid)), ('announces-nothing-else', z3.Implies(result.mem(e), e == S.me.sid))]
+
+    def replay(self, ob):
+        return _replay_args(self.cls, ob)
+
+
+class WithDerivativeArguments(ArgsBase):
+    fn = 'evaluable:WithDerivative.arguments'
+
+    def setup(self, cx):
+        func, var = Elem(cx, 'func'), Elem(cx, 'var', cls='Argument', arguments=False)
+        return State(args=(SObj('WithDerivative', attrs=dict(func=func, var=var)),), func=func, var=var, globals=self.gl(cx))
+
+    def ensures(self, cx, S, result):
+        if not isinstance(result, SymSet):
+            raise Unsupported('arguments returned %r' % (result,))
+        e = cx.int('e')
+        want = z3.Or(S.func.attrs['arguments'].mem(e), e == S.var.sid)
+        return [('announces-the-target-and-the-arguments-of-func', z3.Implies(want, result.mem(e))), ('announces-nothing-else', z3.Implies(result.mem(e), want))]
+
+    def replay(self, ob):
+        return _replay_args('withderivative', ob)
+
+
+class TargetIsConstant(ArgsBase):
+    """DerivativeTargetBase.isconstant (Argument, IdentifierDerivativeTarget) is consistent with arguments == {self}: never constant"""
+    fn = 'evaluable:DerivativeTargetBase.isconstant'
+
+    def setup(self, cx):
+        return State(args=(Elem(cx, 'self', cls='Argument', arguments=False),), globals=self.gl(cx))
+
+    def ensures(self, cx, S, result):
+        return [('an-argument-is-never-constant', z3.BoolVal(result is False))]
+
+    def replay(self, ob):
+        return _replay_args('target', ob)
+
+
+def _replay_args(what, ob):
+    import os
+    here = os.path.dirname(os.path.dirname(os.path.abspath(__file__)))
+    return "import sys; sys.path.insert(0, %r)\nfrom native import c06b\nc06b.run_arguments(%r, %r)\n" % (here, what, ob.clause)
+
+
+def arguments_contracts():
+    return ([EvaluableArguments(n) for n in (0, 1, 2, 3)] + [EvaluableIsConstant()] + [LoopArguments(n) for n in (0, 1, 3)]
+            + [SelfArguments('Argument'), SelfArguments('_LoopIndex'), WithDerivativeArguments(), TargetIsConstant()])
 
 
 def extend(base_contracts, trusted, assumptions, not_covered):
